@@ -88,17 +88,31 @@ package client
 //@   ensures clientids: forall k int :: {mark(k)} 0 <= k && k < len(c.ClientIDs) ==> (c.ClientIDs[k] in ci.clientIDToUID) && ci.clientIDToUID[c.ClientIDs[k]] == c.UID
 //@   ensures ips: forall k int :: {mark(k)} 0 <= k && k < len(c.IPs) ==> (c.IPs[k] in ci.ipToUID) && ci.ipToUID[c.IPs[k]] == c.UID
 //@   ensures only-own-clientids-added: forall id string :: {mark(len(id))} (id in ci.clientIDToUID) && !old(id in ci.clientIDToUID) ==> (exists k int :: 0 <= k && k < len(c.ClientIDs) && c.ClientIDs[k] == id)
+//@   ensures other-names-kept: forall n string :: {mark(len(n))} n != c.Name ==> (n in ci.nameToUID) == old(n in ci.nameToUID) && ci.nameToUID[n] == old(ci.nameToUID[n])
+//@   ensures other-ips-kept: forall a netip.Addr :: old(a in ci.ipToUID) ==> (a in ci.ipToUID) && (ci.ipToUID[a] == old(ci.ipToUID[a]) || ci.ipToUID[a] == c.UID)
+//@   ensures only-own-ips-added: forall a netip.Addr :: (a in ci.ipToUID) && !old(a in ci.ipToUID) ==> ci.ipToUID[a] == c.UID
+//@   ensures only-own-clientids-value: forall id string :: {mark(len(id))} (id in ci.clientIDToUID) && !old(id in ci.clientIDToUID) ==> ci.clientIDToUID[id] == c.UID
+//@   ensures uid-map: forall u UID :: u != c.UID ==> (u in ci.uidToClient) == old(u in ci.uidToClient) && ci.uidToClient[u] == old(ci.uidToClient[u])
+//@   ensures refs-preserved: old(wfRefs(ci)) ==> wfRefs(ci)
 //@   ensures other-clientids-kept: forall id string :: {mark(len(id))} old(id in ci.clientIDToUID) ==> (id in ci.clientIDToUID) && (ci.clientIDToUID[id] == old(ci.clientIDToUID[id]) || ci.clientIDToUID[id] == c.UID)
 //@   modifies entries(ci.nameToUID), entries(ci.clientIDToUID), entries(ci.ipToUID), entries(ci.macToUID), entries(ci.uidToClient), ci.subnetToUID.keys, entries(ci.subnetToUID.vals)
 //@   loop 1 invariant ci.nameToUID == old(ci.nameToUID) && ci.clientIDToUID == old(ci.clientIDToUID) && ci.ipToUID == old(ci.ipToUID) && ci.macToUID == old(ci.macToUID) && ci.uidToClient == old(ci.uidToClient)
 //@   loop 1 invariant (c.Name in ci.nameToUID) && ci.nameToUID[c.Name] == c.UID
+//@   loop 1 invariant forall n string :: {mark(len(n))} n != c.Name ==> (n in ci.nameToUID) == old(n in ci.nameToUID) && ci.nameToUID[n] == old(ci.nameToUID[n])
+//@   loop 1 invariant forall u UID :: (u in ci.uidToClient) == old(u in ci.uidToClient) && ci.uidToClient[u] == old(ci.uidToClient[u])
 //@   loop 1 invariant forall k int :: {mark(k)} 0 <= k && k < #i ==> (c.ClientIDs[k] in ci.clientIDToUID) && ci.clientIDToUID[c.ClientIDs[k]] == c.UID
+//@   loop 1 invariant forall id string :: {mark(len(id))} (id in ci.clientIDToUID) && !old(id in ci.clientIDToUID) ==> ci.clientIDToUID[id] == c.UID
 //@   loop 1 invariant forall id string :: {mark(len(id))} (id in ci.clientIDToUID) && !old(id in ci.clientIDToUID) ==> (exists k int :: 0 <= k && k < #i && c.ClientIDs[k] == id)
 //@   loop 1 invariant forall id string :: {mark(len(id))} old(id in ci.clientIDToUID) ==> (id in ci.clientIDToUID) && (ci.clientIDToUID[id] == old(ci.clientIDToUID[id]) || ci.clientIDToUID[id] == c.UID)
 //@   loop 2 invariant ci.ipToUID == old(ci.ipToUID) && ci.macToUID == old(ci.macToUID) && ci.uidToClient == old(ci.uidToClient)
 //@   loop 2 invariant forall k int :: {mark(k)} 0 <= k && k < #i ==> (c.IPs[k] in ci.ipToUID) && ci.ipToUID[c.IPs[k]] == c.UID
+//@   loop 2 invariant forall a netip.Addr :: old(a in ci.ipToUID) ==> (a in ci.ipToUID) && (ci.ipToUID[a] == old(ci.ipToUID[a]) || ci.ipToUID[a] == c.UID)
+//@   loop 2 invariant forall a netip.Addr :: (a in ci.ipToUID) && !old(a in ci.ipToUID) ==> ci.ipToUID[a] == c.UID
+//@   loop 2 invariant forall u UID :: (u in ci.uidToClient) == old(u in ci.uidToClient) && ci.uidToClient[u] == old(ci.uidToClient[u])
 //@   loop 3 invariant ci.macToUID == old(ci.macToUID) && ci.uidToClient == old(ci.uidToClient)
+//@   loop 3 invariant forall u UID :: (u in ci.uidToClient) == old(u in ci.uidToClient) && ci.uidToClient[u] == old(ci.uidToClient[u])
 //@   loop 4 invariant ci.macToUID == old(ci.macToUID) && ci.uidToClient == old(ci.uidToClient)
+//@   loop 4 invariant forall u UID :: (u in ci.uidToClient) == old(u in ci.uidToClient) && ci.uidToClient[u] == old(ci.uidToClient[u])
 //@ func (ci *index) remove(c *Persistent)
 //@   property C04
 //@   requires ci.nameToUID != ci.clientIDToUID
@@ -129,6 +143,8 @@ package client
 //@   requires nolocks()
 //@   requires s.index != nil && wfRefs(s.index) && mapsOK(s.index)
 //@   callsite (*github.com/AdguardTeam/AdGuardHome/internal/client.index).add(ci, c) requires checked-first: c == p && clashOK[p]
+//@   ensures index-still-well-formed: wfRefs(s.index) && mapsOK(s.index)
+//@   ensures rejected-unchanged: err != nil ==> (forall id string :: {mark(len(id))} (id in s.index.clientIDToUID) == old(id in s.index.clientIDToUID)) && (forall n string :: {mark(len(n))} (n in s.index.nameToUID) == old(n in s.index.nameToUID))
 //@   modifies *
 //@ func (s *Storage) Update(ctx context.Context, name string, p *Persistent) (err error)
 //@   property C04
@@ -165,3 +181,11 @@ package client
 //@   trusted
 //@   ensures clone != nil && fresh(clone) && clone.Name == c.Name && clone.UseOwnSettings == c.UseOwnSettings && clone.FilteringEnabled == c.FilteringEnabled && clone.SafeBrowsingEnabled == c.SafeBrowsingEnabled && clone.ParentalEnabled == c.ParentalEnabled && clone.UseOwnBlockedServices == c.UseOwnBlockedServices
 //@   modifies nothing
+
+// the upstream manager keeps its own maps; it does not touch the client index (trusted frame)
+//@ func (m *upstreamManager) updateCustomUpstreamConfig(c *Persistent)
+//@   trusted
+//@   modifies *m
+//@ func (m *upstreamManager) remove(uid UID) (err error)
+//@   trusted
+//@   modifies *m
